@@ -644,6 +644,9 @@ pub fn check_file_fault(fc: &FLCase, st: &mut Stats) -> CheckResult {
             injected,
             vfs::KINDS.iter().zip(seen.iter()).map(|(k, n)| format!("{k:?}:{n}")).collect::<Vec<_>>()
         );
+        // from here on everything is a "later request": each is answered within milliseconds, or
+        // after the 5 s lock-wait budget at worst.  No answer for 90 s means not served.
+        let _served = engine::deadline(90, "C05", "file-fault", fc, &format!("{what}: later requests are not served: no answer within 90 s (the lock-wait budget is 5 s) - something the failed request held is still held"), true);
         let now = sm(&h).map_err(|f| match f {
             Fail::Violation(m) => Fail::Violation(format!("{what}: afterwards {m}")),
             o => o,
